@@ -725,8 +725,183 @@ fn c08_post(plan: &mut LPlan, seed: u64) {
     plan.actions.sort_by_key(|a| a.t);
 }
 
+/// Engine W wrapper: an L plan executed on the real loop; only the violations of
+/// `prop` are kept (the wire-level monitor knows rules of C01, C09 and C14).
+pub struct WCheck {
+    pub prop: &'static str,
+    pub runs_quick: u64,
+    pub runs_thorough: u64,
+}
+
+fn w_profile(_index: u64) -> Profile {
+    let mut p = Profile::base("w");
+    p.p_fault_free = 0.3;
+    p.net_loss = true;
+    p.blackholes = true;
+    p.link_loss = true;
+    p.receiver_restart = true;
+    p.critical = true;
+    p.low_stall_threshold_bias = true;
+    p.heavy_rate_bias = true;
+    p.horizon_lo_ms = 5_000;
+    p.horizon_hi_ms = 14_000;
+    p
+}
+
+impl Check for WCheck {
+    fn id(&self) -> &'static str {
+        self.prop
+    }
+    fn engine(&self) -> &'static str {
+        "W"
+    }
+    fn level(&self) -> &'static str {
+        "fault_enumeration"
+    }
+    fn runs(&self, tier: Tier) -> u64 {
+        match tier {
+            Tier::Quick => self.runs_quick,
+            Tier::Thorough => self.runs_thorough,
+        }
+    }
+    fn generate(&self, run_seed: u64, index: u64, _tier: Tier) -> Value {
+        let mut plan = lsim::plan::generate(run_seed, &w_profile(index));
+        plan.cfg.conn_timeout_ms = 5000;
+        if self.prop == "C09" {
+            inject_arbitrary(&mut plan, run_seed, run_seed % 4096, 120);
+        }
+        plan.to_value()
+    }
+    fn execute(&self, plan: &Value, want_excerpt: bool) -> RunOutcome {
+        let plan = match LPlan::from_value(plan) {
+            Ok(p) => p,
+            Err(e) => panic!("{e}"),
+        };
+        let mut o = crate::wsim::execute(&plan, want_excerpt);
+        let prefix = format!("{}.", self.prop);
+        o.violations.retain(|v| v.monitor.starts_with(&prefix) || v.monitor.starts_with("W."));
+        o
+    }
+    fn shrink(&self, plan: &Value) -> Vec<Value> {
+        match LPlan::from_value(plan) {
+            Ok(p) => lsim::plan::shrink(&p).into_iter().map(|p| p.to_value()).collect(),
+            Err(_) => Vec::new(),
+        }
+    }
+    fn rule(&self) -> String {
+        "whole-loop runs: the real run_sender_with_config (select! loop, timers, glue, spawned tasks) on a paused-clock current-thread runtime with a seeded select! RNG, closed loop against the same network / receiver / client models, faults limited to network loss, delay, black holes, link loss, receiver restarts and injected uplink datagrams; wire-level oracles only (every judged client datagram on an uplink within 18 virtual ms, per-uplink order, once per uplink, duplicate budget; relayable uplink datagrams reach the client within 3 ms and internal ones never; keepalive gaps on live uplinks <= 2 s)".into()
+    }
+    fn assumptions(&self) -> Vec<String> {
+        vec!["the loop's locals are not observable in whole-loop runs; a client datagram is judged only if, by the monitor's own wire-level stamps, a REG3 was delivered and some uplink was heard within the timeout minus 40 ms".into()]
+    }
+    fn real_components(&self) -> Vec<String> {
+        vec!["run_sender_with_config in full: event_loop! select! arms and glue, tokio interval timers (paused clock), create_connections_from_ips, start-up probing, instant-ACK forwarding task, reader tasks (inert), everything engine L runs".into()]
+    }
+    fn stub_components(&self) -> Vec<String> {
+        vec!["kernel UDP (H3/H4 seams, listener shim), SIGHUP (never raised), network / receiver / SRT client (seeded models), process clock (follows tokio's paused clock)".into()]
+    }
+    fn expected_probes(&self) -> Vec<&'static str> {
+        vec!["w.accepted", "w.flush"]
+    }
+}
+
+/// Several engines deciding one property: run index i goes to part i % n.
+pub struct Multi {
+    pub id: &'static str,
+    pub parts: Vec<Box<dyn Check>>,
+    /// part k gets weight[k] of every sum(weight) consecutive indices
+    pub weights: Vec<u64>,
+}
+
+impl Multi {
+    fn part_of(&self, index: u64) -> usize {
+        let total: u64 = self.weights.iter().sum();
+        let mut r = index % total;
+        for (k, w) in self.weights.iter().enumerate() {
+            if r < *w {
+                return k;
+            }
+            r -= w;
+        }
+        0
+    }
+}
+
+impl Check for Multi {
+    fn id(&self) -> &'static str {
+        self.id
+    }
+    fn engine(&self) -> &'static str {
+        "L+W"
+    }
+    fn level(&self) -> &'static str {
+        self.parts[0].level()
+    }
+    fn runs(&self, tier: Tier) -> u64 {
+        // the first part's budget fixes the total; weights split it
+        let total: u64 = self.weights.iter().sum();
+        self.parts[0].runs(tier) * total / self.weights[0]
+    }
+    fn generate(&self, run_seed: u64, index: u64, tier: Tier) -> Value {
+        let k = self.part_of(index);
+        serde_json::json!({"part": k, "plan": self.parts[k].generate(run_seed, index, tier)})
+    }
+    fn execute(&self, plan: &Value, want_excerpt: bool) -> RunOutcome {
+        let k = plan["part"].as_u64().unwrap_or(0) as usize;
+        let mut o = self.parts[k.min(self.parts.len() - 1)].execute(&plan["plan"], want_excerpt);
+        o.stats.inc(&format!("runs.engine_{}", self.parts[k.min(self.parts.len() - 1)].engine()));
+        o
+    }
+    fn shrink(&self, plan: &Value) -> Vec<Value> {
+        let k = plan["part"].as_u64().unwrap_or(0) as usize;
+        self.parts[k.min(self.parts.len() - 1)]
+            .shrink(&plan["plan"])
+            .into_iter()
+            .map(|p| serde_json::json!({"part": k, "plan": p}))
+            .collect()
+    }
+    fn rule(&self) -> String {
+        self.parts
+            .iter()
+            .zip(self.weights.iter())
+            .map(|(p, w)| format!("[engine {} x{}] {}", p.engine(), w, p.rule()))
+            .collect::<Vec<_>>()
+            .join(" || ")
+    }
+    fn assumptions(&self) -> Vec<String> {
+        self.parts.iter().flat_map(|p| p.assumptions()).collect()
+    }
+    fn real_components(&self) -> Vec<String> {
+        self.parts.iter().flat_map(|p| p.real_components().into_iter().map(move |c| format!("[{}] {c}", p.engine()))).collect()
+    }
+    fn stub_components(&self) -> Vec<String> {
+        self.parts.iter().flat_map(|p| p.stub_components().into_iter().map(move |c| format!("[{}] {c}", p.engine()))).collect()
+    }
+    fn expected_probes(&self) -> Vec<&'static str> {
+        self.parts.iter().flat_map(|p| p.expected_probes()).collect()
+    }
+    fn sample_view(&self, plan: &Value) -> Value {
+        let k = plan["part"].as_u64().unwrap_or(0) as usize;
+        serde_json::json!({"part": k, "engine": self.parts[k.min(self.parts.len() - 1)].engine(), "plan": self.parts[k.min(self.parts.len() - 1)].sample_view(&plan["plan"])})
+    }
+}
+
 pub fn all() -> Vec<Box<dyn Check>> {
     let mut v = l_checks();
+    // C01, C09 and C14 are decided by engine L and, for the loop glue, by engine W
+    for id in ["C01", "C09", "C14"] {
+        let pos = v.iter().position(|c| c.id() == id).unwrap();
+        let l = v.remove(pos);
+        let prop: &'static str = id;
+        v.insert(
+            pos,
+            Box::new(Multi {
+                id: prop,
+                parts: vec![l, Box::new(WCheck { prop, runs_quick: 60, runs_thorough: 3000 })],
+                weights: vec![5, 1],
+            }),
+        );
+    }
     v.extend(k_checks());
     v.push(Box::new(crate::tsim::c18::C18Check));
     v.push(Box::new(crate::tsim::c20::C20Check));
